@@ -469,6 +469,26 @@ theorem openDB_isSome (fs : FS) (o : OpCkpt) (cks : List CkDoc) (ck : CkDoc)
     | none => rw [hs] at h2; simp at h2
     | some ls => rfl
 
+/-! ### what an artifact must hold to restore a checkpoint (relative to the original storage) -/
+
+/-- the artifact in `w` holds, for operator checkpoint `o`, a document with the ORIGINAL entry for the checkpoint id
+(the document may otherwise differ: later entries added, other entries dropped) and every file of that entry with its
+original content -/
+def OpArtifactOK (fs w : FS) (sid : Nat) (o : OpCkpt) : Prop :=
+  ∃ cks0 cksA ck,
+    read fs (.work o.uri) = some (.doc cks0) ∧ findCk cks0 o.ckptId = some ck ∧
+    read w (artPath sid o.uri) = some (.doc cksA) ∧ findCk cksA o.ckptId = some ck ∧
+    ∀ u ∈ ck.files, ∃ c, read fs (.work u) = some c ∧ read w (artPath sid u) = some c
+
+/-- the image of a handle depends only on the entry with its id and that entry's files -/
+theorem openDB_of_entry (fs1 fs2 : FS) (o : OpCkpt) (cks1 cks2 : List CkDoc) (ck : CkDoc)
+    (h1 : read fs1 (.work o.uri) = some (.doc cks1)) (hc1 : findCk cks1 o.ckptId = some ck)
+    (h2 : read fs2 (.work o.uri) = some (.doc cks2)) (hc2 : findCk cks2 o.ckptId = some ck)
+    (h : ∀ u ∈ ck.files, read fs1 (.work u) = read fs2 (.work u)) : openDB fs1 o = openDB fs2 o := by
+  simp only [openDB, h1, hc1, h2, hc2]
+  rw [readAll_congr fs1 fs2 ck.wals (fun u hu => h u (mem_files_of_wal hu)),
+    readLevels_congr fs1 fs2 ck.levels (fun l hl u hu => h u (mem_files_of_level hl hu))]
+
 /-! ### non-atomic creation: the environment acts between the storage calls -/
 
 /-- the environment never writes or deletes a file in `H` -/
@@ -713,5 +733,324 @@ theorem createArtifactS_sim (L : Lister) (m : DocMode) (H : URI → Prop) (fs : 
         cases hr : read b1 (.work jobURI) with
         | none => exact ⟨rfl, hab.1⟩
         | some c => exact ⟨rfl, (write_agree H _ c hab).1⟩
+
+/-! ### non-atomic creation under the job's discipline (documents appended to / pruned, data files only deleted) -/
+
+/-- the entry of the original storage that the savepoint needs of operator checkpoint `o` -/
+def origEntry (fs : FS) (o : OpCkpt) : Option CkDoc :=
+  match read fs (.work o.uri) with
+  | some (.doc cks0) => findCk cks0 o.ckptId
+  | _ => none
+
+theorem origEntry_some {fs : FS} {o : OpCkpt} {ck : CkDoc} (h : origEntry fs o = some ck) :
+    ∃ cks0, read fs (.work o.uri) = some (.doc cks0) ∧ findCk cks0 o.ckptId = some ck := by
+  unfold origEntry at h
+  split at h
+  · rename_i cks0 hr; exact ⟨cks0, hr, h⟩
+  · simp at h
+
+/-- `u` is a WAL or table file of an entry the savepoint needs -/
+def DataOf (fs : FS) (snap : JobSnap) (u : URI) : Prop :=
+  ∃ o ∈ snap.ops, ∃ ck, origEntry fs o = some ck ∧ u ∈ ck.files
+
+/-- what the running job may do to the working storage while the creation runs: delete anything; write a data file
+of the savepoint or its job snapshot only with the content it has; rewrite an operator's document only into a document
+that keeps the entry of the savepoint's checkpoint as it is or no longer has it (later entries appended, non-retained
+ones dropped); anything else freely -/
+def DiscOp (fs : FS) (jobURI : URI) (snap : JobSnap) : WorkOp → Prop
+  | .del _ => True
+  | .put u c =>
+    ((u = jobURI ∨ DataOf fs snap u) → read fs (.work u) = some c) ∧
+    (∀ o ∈ snap.ops, u = o.uri → ∃ cks', c = .doc cks' ∧
+      (findCk cks' o.ckptId = origEntry fs o ∨ findCk cks' o.ckptId = none))
+
+def Disc (fs : FS) (jobURI : URI) (snap : JobSnap) (sch : Sched) : Prop :=
+  ∀ e ∈ sch, ∀ w ∈ e, DiscOp fs jobURI snap w
+
+/-- the working storage during the run: data files and the job snapshot read as originally or not at all; an
+operator's document, if it is one, has the original entry for the id or none -/
+def WInv (fs : FS) (jobURI : URI) (snap : JobSnap) (a : FS) : Prop :=
+  (∀ u, (u = jobURI ∨ DataOf fs snap u) → read a (.work u) = read fs (.work u) ∨ read a (.work u) = none) ∧
+  (∀ o ∈ snap.ops, ∀ cks', read a (.work o.uri) = some (.doc cks') →
+    findCk cks' o.ckptId = origEntry fs o ∨ findCk cks' o.ckptId = none)
+
+theorem WInv_init (fs : FS) (jobURI : URI) (snap : JobSnap) : WInv fs jobURI snap fs := by
+  refine ⟨fun _ _ => Or.inl rfl, ?_⟩
+  intro o _ cks' h
+  left; simp [origEntry, h]
+
+theorem WInv_congr {fs : FS} {jobURI : URI} {snap : JobSnap} {a b : FS} (h : WInv fs jobURI snap a)
+    (hab : ∀ u, read b (.work u) = read a (.work u)) : WInv fs jobURI snap b := by
+  refine ⟨fun u hu => by rw [hab]; exact h.1 u hu, fun o ho cks' hr => h.2 o ho cks' (by rw [← hab]; exact hr)⟩
+
+theorem WInv_applyWork (fs : FS) (jobURI : URI) (snap : JobSnap) : ∀ (e : List WorkOp) (a : FS),
+    (∀ w ∈ e, DiscOp fs jobURI snap w) → WInv fs jobURI snap a → WInv fs jobURI snap (applyWork a e) := by
+  intro e
+  induction e with
+  | nil => intro a _ h; exact h
+  | cons w r ih =>
+    intro a he h
+    have hw := he w (List.mem_cons_self ..)
+    have hr := fun x hx => he x (List.mem_cons_of_mem _ hx)
+    cases w with
+    | del v =>
+      simp only [applyWork]
+      apply ih _ hr
+      refine ⟨?_, ?_⟩
+      · intro u hu
+        by_cases hvu : v = u
+        · subst hvu; right; exact read_remove_eq _ _
+        · rw [read_remove_ne _ (by intro hh; injection hh with hh; exact hvu hh)]; exact h.1 u hu
+      · intro o ho cks' hrd
+        by_cases hvu : v = o.uri
+        · rw [hvu, read_remove_eq] at hrd; simp at hrd
+        · rw [read_remove_ne _ (by intro hh; injection hh with hh; exact hvu hh)] at hrd; exact h.2 o ho cks' hrd
+    | put v c =>
+      simp only [applyWork]
+      apply ih _ hr
+      simp only [DiscOp] at hw
+      refine ⟨?_, ?_⟩
+      · intro u hu
+        by_cases hvu : v = u
+        · subst hvu; left; rw [read_write_eq]; exact (hw.1 hu).symm
+        · rw [read_write_ne _ _ (by intro hh; injection hh with hh; exact hvu hh)]; exact h.1 u hu
+      · intro o ho cks' hrd
+        by_cases hvu : v = o.uri
+        · rw [hvu, read_write_eq] at hrd
+          obtain ⟨cks'', hc, hprop⟩ := hw.2 o ho hvu
+          rw [hc] at hrd; injection hrd with hrd; injection hrd with hrd; subst hrd; exact hprop
+        · rw [read_write_ne _ _ (by intro hh; injection hh with hh; exact hvu hh)] at hrd; exact h.2 o ho cks' hrd
+
+theorem disc_step (fs : FS) (jobURI : URI) (snap : JobSnap) (sch : Sched) (hd : Disc fs jobURI snap sch) (a : FS)
+    (h : WInv fs jobURI snap a) :
+    WInv fs jobURI snap (Sched.step a sch).1 ∧ Disc fs jobURI snap (Sched.step a sch).2 ∧
+    ∀ p, p.isWork = false → read (Sched.step a sch).1 p = read a p := by
+  cases sch with
+  | nil => exact ⟨h, hd, fun _ _ => rfl⟩
+  | cons e r =>
+    exact ⟨WInv_applyWork fs jobURI snap e a (hd e (List.mem_cons_self ..)) h,
+      fun e' he' => hd e' (List.mem_cons_of_mem _ he'), fun p hp => applyWork_frame p hp e a⟩
+
+/-- data files of the savepoint that are in the artifact with their original content -/
+def DInv (fs : FS) (sid : Nat) (us : List URI) (a : FS) : Prop :=
+  ∀ u ∈ us, ∃ c, read fs (.work u) = some c ∧ read a (artPath sid u) = some c
+
+/-- operator checkpoints whose document in the artifact has the original entry -/
+def DocInv (fs : FS) (sid : Nat) (done : List OpCkpt) (a : FS) : Prop :=
+  ∀ o ∈ done, ∃ ck cksA, origEntry fs o = some ck ∧ read a (artPath sid o.uri) = some (.doc cksA) ∧
+    findCk cksA o.ckptId = some ck
+
+/-- a write into the savepoint directory that cannot spoil what is already there -/
+def GoodWrite (fs : FS) (snap : JobSnap) (v : URI) (c : Content) : Prop :=
+  (DataOf fs snap v → read fs (.work v) = some c) ∧
+  (∀ o ∈ snap.ops, v = o.uri → ∃ cksA, c = .doc cksA ∧ findCk cksA o.ckptId = origEntry fs o)
+
+theorem DInv_congr {fs : FS} {sid : Nat} {us : List URI} {a b : FS} (h : DInv fs sid us a)
+    (hab : ∀ p, p.isWork = false → read b p = read a p) : DInv fs sid us b := by
+  intro u hu
+  obtain ⟨c, h1, h2⟩ := h u hu
+  exact ⟨c, h1, by rw [hab _ (by simp [artPath, Path.isWork])]; exact h2⟩
+
+theorem DocInv_congr {fs : FS} {sid : Nat} {done : List OpCkpt} {a b : FS} (h : DocInv fs sid done a)
+    (hab : ∀ p, p.isWork = false → read b p = read a p) : DocInv fs sid done b := by
+  intro o ho
+  obtain ⟨ck, cksA, h1, h2, h3⟩ := h o ho
+  exact ⟨ck, cksA, h1, by rw [hab _ (by simp [artPath, Path.isWork])]; exact h2, h3⟩
+
+theorem DInv_write {fs : FS} {snap : JobSnap} {sid : Nat} {us : List URI} {a : FS} {v : URI} {c : Content}
+    (h : DInv fs sid us a) (hus : ∀ u ∈ us, DataOf fs snap u) (hg : GoodWrite fs snap v c) :
+    DInv fs sid us (write (artPath sid v) c a) := by
+  intro u hu
+  obtain ⟨c0, h1, h2⟩ := h u hu
+  by_cases hvu : v = u
+  · subst hvu
+    have := hg.1 (hus _ hu)
+    rw [h1] at this; injection this with this; subst this
+    exact ⟨c0, h1, read_write_eq _ _ _⟩
+  · exact ⟨c0, h1, by rw [read_write_ne _ _ (fun hh => hvu (spFile_inj sid _ _ hh))]; exact h2⟩
+
+theorem DocInv_write {fs : FS} {snap : JobSnap} {sid : Nat} {done : List OpCkpt} {a : FS} {v : URI} {c : Content}
+    (h : DocInv fs sid done a) (hdone : ∀ o ∈ done, o ∈ snap.ops) (hg : GoodWrite fs snap v c) :
+    DocInv fs sid done (write (artPath sid v) c a) := by
+  intro o ho
+  obtain ⟨ck, cksA, h1, h2, h3⟩ := h o ho
+  by_cases hvu : v = o.uri
+  · obtain ⟨cksB, hc, hf⟩ := hg.2 o (hdone o ho) hvu
+    subst hc
+    exact ⟨ck, cksB, h1, by rw [hvu]; exact read_write_eq _ _ _, by rw [hf, h1]⟩
+  · exact ⟨ck, cksA, h1, by rw [read_write_ne _ _ (fun hh => hvu (spFile_inj sid _ _ hh))]; exact h2, h3⟩
+
+theorem DInv_mono {fs : FS} {sid : Nat} {us vs : List URI} {a : FS} (h : DInv fs sid us a)
+    (hsub : ∀ u ∈ vs, u ∈ us) : DInv fs sid vs a := fun u hu => h u (hsub u hu)
+
+/-- copying the data files of a needed entry while the job goes on (discipline): everything already in the artifact
+stays right, and on success the copied files are in the artifact with their original content -/
+theorem copyAllS_disc (fs : FS) (jobURI : URI) (snap : JobSnap) (sid : Nat)
+    (hsep : ∀ o ∈ snap.ops, ¬ DataOf fs snap o.uri) :
+    ∀ (us : List URI) (a : FS) (sch : Sched) (D : List URI) (done : List OpCkpt),
+    (∀ u ∈ us, DataOf fs snap u) → (∀ u ∈ D, DataOf fs snap u) → (∀ o ∈ done, o ∈ snap.ops) →
+    Disc fs jobURI snap sch → WInv fs jobURI snap a → DInv fs sid D a → DocInv fs sid done a →
+    Disc fs jobURI snap (copyAllS .work (artPath sid) a sch us).2.2 ∧
+    WInv fs jobURI snap (copyAllS .work (artPath sid) a sch us).1 ∧
+    DInv fs sid D (copyAllS .work (artPath sid) a sch us).1 ∧
+    DocInv fs sid done (copyAllS .work (artPath sid) a sch us).1 ∧
+    ((copyAllS .work (artPath sid) a sch us).2.1 = true → DInv fs sid us (copyAllS .work (artPath sid) a sch us).1) := by
+  intro us
+  induction us with
+  | nil =>
+    intro a sch D done _ _ _ hd hw hD hdoc
+    exact ⟨hd, hw, hD, hdoc, fun _ u hu => by cases hu⟩
+  | cons u r ih =>
+    intro a sch D done hus hDd hdone hd hw hD hdoc
+    obtain ⟨hw1, hd1, hfr⟩ := disc_step fs jobURI snap sch hd a hw
+    have hD1 := DInv_congr hD hfr
+    have hdoc1 := DocInv_congr hdoc hfr
+    have hu := hus u (List.mem_cons_self ..)
+    simp only [copyAllS]
+    cases hr : read (Sched.step a sch).1 (.work u) with
+    | none => exact ⟨hd1, hw1, hD1, hdoc1, fun h => by simp at h⟩
+    | some c =>
+      simp only []
+      have horig : read fs (.work u) = some c := by
+        rcases hw1.1 u (Or.inr hu) with h | h
+        · rw [← h]; exact hr
+        · rw [h] at hr; simp at hr
+      have hg : GoodWrite fs snap u c :=
+        ⟨fun _ => horig, fun o ho huo => absurd (huo ▸ hu) (hsep o ho)⟩
+      have hw2 : WInv fs jobURI snap (write (artPath sid u) c (Sched.step a sch).1) :=
+        WInv_congr hw1 (fun v => read_write_ne _ _ (sp_ne_work sid u v))
+      have hD2 : DInv fs sid (u :: D) (write (artPath sid u) c (Sched.step a sch).1) := by
+        intro v hv
+        rcases List.mem_cons.mp hv with rfl | hv
+        · exact ⟨c, horig, read_write_eq _ _ _⟩
+        · exact DInv_write hD1 hDd hg v hv
+      have hdoc2 := DocInv_write hdoc1 hdone hg
+      obtain ⟨r1, r2, r3, r4, r5⟩ := ih _ _ (u :: D) done (fun v hv => hus v (List.mem_cons_of_mem _ hv))
+        (fun v hv => by rcases List.mem_cons.mp hv with rfl | hv; exact hu; exact hDd v hv) hdone hd1 hw2 hD2 hdoc2
+      refine ⟨r1, r2, DInv_mono r3 (fun v hv => List.mem_cons_of_mem _ hv), r4, ?_⟩
+      intro hok v hv
+      rcases List.mem_cons.mp hv with rfl | hv
+      · exact r3 _ (List.mem_cons_self ..)
+      · exact r5 hok v hv
+
+theorem origEntry_congr (fs : FS) {o o' : OpCkpt} (h1 : o.uri = o'.uri) (h2 : o.ckptId = o'.ckptId) :
+    origEntry fs o = origEntry fs o' := by
+  simp [origEntry, h1, h2]
+
+theorem listFiles_byId_some {cks : List CkDoc} {id : Nat} {files : List URI}
+    (h : listFiles .byId cks id = some files) : ∃ ck, findCk cks id = some ck ∧ files = ck.files := by
+  simp only [listFiles] at h
+  cases hf : findCk cks id with
+  | none => rw [hf] at h; simp at h
+  | some ck => rw [hf] at h; simp only [Option.map_some, Option.some.injEq] at h; exact ⟨ck, rfl, h.symm⟩
+
+/-- the per-operator loop of the repaired creation while the job goes on (discipline): on success every operator
+checkpoint processed has, in the artifact, a document with its original entry and that entry's files with their original
+content; what was there before stays right -/
+theorem createOpsS_disc (fs : FS) (jobURI : URI) (snap : JobSnap) (sid : Nat)
+    (hsep : ∀ o ∈ snap.ops, ¬ DataOf fs snap o.uri)
+    (hdocs : ∀ o ∈ snap.ops, ∀ o' ∈ snap.ops, o.uri = o'.uri → o.ckptId = o'.ckptId) :
+    ∀ (todo : List OpCkpt) (a : FS) (sch : Sched) (D : List URI) (done : List OpCkpt),
+    (∀ o ∈ todo, o ∈ snap.ops) → (∀ u ∈ D, DataOf fs snap u) → (∀ o ∈ done, o ∈ snap.ops) →
+    Disc fs jobURI snap sch → WInv fs jobURI snap a → DInv fs sid D a → DocInv fs sid done a →
+    (createOpsS .byId .writeRead sid a sch todo).2.1 = true →
+    Disc fs jobURI snap (createOpsS .byId .writeRead sid a sch todo).2.2 ∧
+    WInv fs jobURI snap (createOpsS .byId .writeRead sid a sch todo).1 ∧
+    DInv fs sid D (createOpsS .byId .writeRead sid a sch todo).1 ∧
+    DocInv fs sid done (createOpsS .byId .writeRead sid a sch todo).1 ∧
+    DocInv fs sid todo (createOpsS .byId .writeRead sid a sch todo).1 ∧
+    ∀ o ∈ todo, ∀ ck, origEntry fs o = some ck → DInv fs sid ck.files (createOpsS .byId .writeRead sid a sch todo).1 := by
+  intro todo
+  induction todo with
+  | nil =>
+    intro a sch D done _ _ _ hd hw hD hdoc _
+    refine ⟨hd, hw, hD, hdoc, ?_, ?_⟩
+    · intro o ho; cases ho
+    · intro o ho; cases ho
+  | cons o r ih =>
+    intro a sch D done htodo hDd hdone hd hw hD hdoc hok
+    have ho := htodo o (List.mem_cons_self ..)
+    obtain ⟨hw1, hd1, hfr⟩ := disc_step fs jobURI snap sch hd a hw
+    have hD1 := DInv_congr hD hfr
+    have hdoc1 := DocInv_congr hdoc hfr
+    simp only [createOpsS] at hok ⊢
+    cases hr : read (Sched.step a sch).1 (.work o.uri) with
+    | none => rw [hr] at hok; simp at hok
+    | some c0 =>
+      rw [hr] at hok
+      cases c0 with
+      | job s => simp at hok
+      | blob t => simp at hok
+      | junk => simp at hok
+      | doc cks' =>
+        simp only [] at hok ⊢
+        cases hl : listFiles .byId cks' o.ckptId with
+        | none => rw [hl] at hok; simp at hok
+        | some files =>
+          rw [hl] at hok
+          simp only [] at hok ⊢
+          obtain ⟨ck', hfind, hfiles⟩ := listFiles_byId_some hl
+          subst hfiles
+          have horigE : origEntry fs o = some ck' := by
+            rcases hw1.2 o ho cks' hr with h | h
+            · rw [← h]; exact hfind
+            · rw [h] at hfind; simp at hfind
+          have hdata : ∀ u ∈ ck'.files, DataOf fs snap u := fun u hu => ⟨o, ho, ck', horigE, hu⟩
+          obtain ⟨c1, c2, c3, c4, c5⟩ := copyAllS_disc fs jobURI snap sid hsep ck'.files _ _ D done hdata hDd hdone hd1 hw1 hD1 hdoc1
+          cases hcs : copyAllS .work (artPath sid) (Sched.step a sch).1 (Sched.step a sch).2 ck'.files with
+          | mk a2 rest =>
+            obtain ⟨ok2, sch2⟩ := rest
+            rw [hcs] at hok c1 c2 c3 c4 c5
+            simp only at c1 c2 c3 c4 c5
+            cases ok2 with
+            | false => simp at hok
+            | true =>
+              simp only [] at hok ⊢
+              have c5' := c5 rfl
+              obtain ⟨hw3, hd3, hfr3⟩ := disc_step fs jobURI snap sch2 c1 a2 c2
+              have hg : GoodWrite fs snap o.uri (.doc cks') := by
+                refine ⟨fun hdo => absurd hdo (hsep o ho), ?_⟩
+                intro o2 ho2 huri
+                refine ⟨cks', rfl, ?_⟩
+                have hid := hdocs o ho o2 ho2 huri
+                rw [← origEntry_congr fs huri hid, ← hid, horigE]; exact hfind
+              have hw4 : WInv fs jobURI snap (write (artPath sid o.uri) (.doc cks') (Sched.step a2 sch2).1) :=
+                WInv_congr hw3 (fun v => read_write_ne _ _ (sp_ne_work sid o.uri v))
+              have hD4 : DInv fs sid (ck'.files ++ D) (write (artPath sid o.uri) (.doc cks') (Sched.step a2 sch2).1) := by
+                apply DInv_write _ (fun u hu => by
+                  rcases List.mem_append.mp hu with h | h
+                  · exact hdata u h
+                  · exact hDd u h) hg
+                intro u hu
+                rcases List.mem_append.mp hu with h | h
+                · exact DInv_congr c5' hfr3 u h
+                · exact DInv_congr c3 hfr3 u h
+              have hdoc4 : DocInv fs sid (o :: done) (write (artPath sid o.uri) (.doc cks') (Sched.step a2 sch2).1) := by
+                intro o2 ho2
+                rcases List.mem_cons.mp ho2 with rfl | ho2
+                · exact ⟨ck', cks', horigE, read_write_eq _ _ _, hfind⟩
+                · exact DocInv_write (DocInv_congr c4 hfr3) hdone hg o2 ho2
+              obtain ⟨r1, r2, r3, r4, r5, r6⟩ := ih _ _ (ck'.files ++ D) (o :: done)
+                (fun x hx => htodo x (List.mem_cons_of_mem _ hx))
+                (fun u hu => by
+                  rcases List.mem_append.mp hu with h | h
+                  · exact hdata u h
+                  · exact hDd u h)
+                (fun x hx => by
+                  rcases List.mem_cons.mp hx with rfl | hx
+                  · exact ho
+                  · exact hdone x hx)
+                hd3 hw4 hD4 hdoc4 hok
+              refine ⟨r1, r2, DInv_mono r3 (fun u hu => List.mem_append_right _ hu),
+                fun x hx => r4 x (List.mem_cons_of_mem _ hx), ?_, ?_⟩
+              · intro x hx
+                rcases List.mem_cons.mp hx with rfl | hx
+                · exact r4 _ (List.mem_cons_self ..)
+                · exact r5 x hx
+              · intro x hx ck hck
+                rcases List.mem_cons.mp hx with rfl | hx
+                · rw [horigE] at hck; injection hck with hck; subst hck
+                  exact DInv_mono r3 (fun u hu => List.mem_append_left _ hu)
+                · exact r6 x hx ck hck
 
 end Rxn.Savepoint
